@@ -78,6 +78,7 @@ pub fn check(s: &'static dyn Proto, c: &Case, st: &mut Stats, _k: &KnownFindings
     let eff_ksf: KsfSpec = match (&c.ksf, m.ksf) {
         (Some(k), _) => k.clone(),
         (None, KsfKind::RealArgon2) => KsfSpec::Argon2Default,
+        (None, KsfKind::Zst) => KsfSpec::H(ksf::ZST_FAMILY),
         (None, _) => KsfSpec::Identity,
     };
     let stretch = |x: &[u8]| ksf::pure_stretch(&eff_ksf, x).expect("HARNESS-BUG: stretch");
